@@ -33,7 +33,7 @@ def run(ctx):
                    nontrivial=lambda c, i: i.startswith("ok"))
     # the same two suites on the builds that compile the OTHER hex tables / decoders (table encoders and decoders without hex-simd;
     # half / quarter / min decode tables; half / min encode tables): the property is about every build's text form
-    others = ["nosimd", "embedded", "lowmem", "decq", "decmin"]
+    others = ["nosimd", "embedded", "lowmem", "decq", "decmin", "simd-decmin"]
     near2 = [c for c in near if c.startswith("parse")][:: (3 if ctx.tier == "quick" else 1)]
     for name in others:
         hb2 = ctx.harness(name)
